@@ -560,19 +560,29 @@ func ruleHTTPChunk(c *Ctx, r *Rule) {
 	fn := hr.chunk
 	name := c.fnName(fn)
 	var ins []ssa.CallInstruction
-	for _, ci := range callsIn(fn) {
-		if invokesMethod(ci, ro.ctlIn) {
-			ins = append(ins, ci)
+	for _, f := range append([]*ssa.Function{fn}, allAnon(fn)...) { // function literals of the scanner scan for it
+		for _, ci := range callsIn(f) {
+			if invokesMethod(ci, ro.ctlIn) {
+				ins = append(ins, ci)
+			}
 		}
 	}
 	// classify In calls: inside the scan loop (under  readBuff[pos] == '\n') vs last-chunk flush
 	nl, last := 0, 0
 	for i, ci := range ins {
 		isNL, isLast := false, false
-		for _, l := range c.unitGuards(ci) {
+		for _, l := range c.unitGuardsCtx(ci) {
 			if op, _, y, ok := cmpLit(l); ok && op == token.EQL {
 				if k, isK := constInt(y); isK && k == '\n' {
 					isNL = true
+				}
+			}
+			// the other spelling: bytes.IndexByte(window, '\n') found (>= 0, != -1)
+			if op, x, y, ok := cmpLit(l); ok {
+				if call, isIdx := isIndexNewline(x); isIdx && call != nil {
+					if k, isK := constInt(y); isK && ((op == token.GEQ && k == 0) || (op == token.NEQ && k == -1) || (op == token.GTR && k == -1)) {
+						isNL = true
+					}
 				}
 			}
 			if p, ok := l.v.(*ssa.Parameter); ok && l.pol && paramIndex(fn, p) >= 0 {
@@ -589,7 +599,7 @@ func ruleHTTPChunk(c *Ctx, r *Rule) {
 		}
 		r.Ob(isNL != isLast, fmt.Sprintf("%s|in-call#%d", name, i), ci.Pos(), "each In call is either under the newline test or the last-chunk flush")
 		// source id argument is the function's parameter
-		p, isP := ci.Common().Args[0].(*ssa.Parameter)
+		p, isP := stripConv(ci.Common().Args[0]).(*ssa.Parameter)
 		r.Ob(isP && paramIndex(fn, p) >= 0, fmt.Sprintf("%s|in-call#%d|source", name, i), ci.Pos(), "events carry the request's source id")
 	}
 	r.Ob(nl >= 1 && last == 1, name+"|in-calls", fn.Pos(), fmt.Sprintf("%d In calls under the newline test, %d under the last-chunk flag", nl, last))
@@ -613,13 +623,37 @@ func ruleHTTPChunk(c *Ctx, r *Rule) {
 			idx = 1
 		}
 		start := b.Succs[idx].Instrs[0]
+		var emitsAlways func(g *ssa.Function, d int) bool
 		isIn := func(in ssa.Instruction) bool {
 			for _, ci := range ins {
 				if in == ssa.Instruction(ci) {
 					return true
 				}
 			}
+			// a call of a function literal / helper of the package that hands a line over on every path
+			if ci, ok := in.(ssa.CallInstruction); ok {
+				if g := calleeFunc(ci); g != nil && g.Blocks != nil && c.pkgOf(g) == "plugin/input/http" && g != fn {
+					return emitsAlways(g, 0)
+				}
+			}
 			return false
+		}
+		emitsAlways = func(g *ssa.Function, d int) bool {
+			if d > 2 {
+				return false
+			}
+			ok, _ := c.mustPassBeforeReturn(g, nil, func(in ssa.Instruction) bool {
+				if ci, isCall := in.(ssa.CallInstruction); isCall {
+					if invokesMethod(ci, ro.ctlIn) {
+						return true
+					}
+					if h := calleeFunc(ci); h != nil && h.Blocks != nil && c.pkgOf(h) == "plugin/input/http" && h != g {
+						return emitsAlways(h, d+1)
+					}
+				}
+				return false
+			})
+			return ok
 		}
 		miss := !isIn(start)
 		if miss {
